@@ -308,7 +308,9 @@ StepBlock ==
      IN IF Top.m = "eps" /\ Top.s = "arr" /\ sz = 0 /\ BugArray0
         THEN RFail("panic", <<"index 0 of empty">>) /\ UNCHANGED <<vals, rstack, borrows, allocs>>
         ELSE /\ PushVal(v) /\ Cont(<<>>)
-             /\ IF Top.m = "eps"
+             /\ IF Top.m = "eps" /\ Top.s \in {"one", "arr"} /\ sz = 0
+                THEN UNCHANGED <<borrows, allocs>>   \* a reference to a zero-sized value borrows nothing
+                ELSE IF Top.m = "eps"
                 THEN /\ borrows' = Append(borrows, [off |-> rpos - sz, len |-> sz, esz |-> SizeOf(E),
                                                      al |-> AlignOf(E)])
                      /\ UNCHANGED allocs
